@@ -200,7 +200,8 @@ def verdict(prop, wl, tier, seed, results, t0, total, nshards):
     missing = [a for a in wl.ANCHORS if a.split(":", 1)[1] not in entered_names]
     # private helpers and local handler functions may be renamed or inlined by a harmless refactoring: their absence is
     # reported in the evidence but only a *public* anchored function that was never entered makes the run inconclusive
-    hard_missing = [a for a in missing if not _is_private_anchor(a)]
+    soft = set(getattr(wl, "SOFT_ANCHORS", []))
+    hard_missing = [a for a in missing if not _is_private_anchor(a) and a not in soft]
     if hard_missing and not errors:
         reasons.append("anchored public functions never entered: " + ", ".join(hard_missing))
     if len(keys) < 2 and not unknown:
